@@ -5,6 +5,7 @@
    every key, input, salt, round count and password (bytes 0..255 where a byte indexes a 256-entry table).  Statements only,
    generated from the lemmas' types. *)
 Require Import GC.Base.Bytes GC.Codec.Codec GC.Kdf.KdfBase GC.Kdf.DesCrypt GC.Kdf.DesTables GC.Kdf.SunMd5 GC.Kdf.Bcrypt GC.Kdf.NtHash GC.Schemes.Consts GC.Kdf.SafeBase GC.Kdf.SafeDes GC.Kdf.SafeSunMd5 GC.Kdf.SafeBcrypt GC.Kdf.SafeNtHash.
+Require GC.Kdf.Argon2 GC.Kdf.SafeArgon2.
 
 Theorem C05_m_des_table_shapes :
   (length m_des_ie3264, map (length (A:=Z)) m_des_ie3264) = (8%nat, repeat 16%nat 8) /\
@@ -116,4 +117,24 @@ Theorem C05_decode_rune_width :
   decode_rune s = (r, n) ->
   (n <= length s)%nat /\ (n <= 4)%nat /\ (s <> [] -> (1 <= n)%nat) /\ (65536 <= r -> n = 4%nat).
 Proof. exact decode_rune_width. Qed.
+
+(* Argon2 (argon2crypto.Key): with every access to the block matrix a CHECKED operation (None outside the matrix, where
+   the Go code would panic with "index out of range"), the derivation succeeds and equals the unchecked model -- for
+   every variant, version, password, salt, time cost, key length, every lane count 1..255 and every memory cost below
+   2^32 (rounding to a multiple of 4 x lanes and the minimum of 8 x lanes included): the two initial blocks of each
+   lane, the block written, the previous block, the reference block picked by indexAlpha from ANY 64-bit word
+   (data-dependent or data-independent addressing), and the last block of each lane in the final XOR. *)
+Theorem C05_argon2_never_out_of_range : forall B2 mode version pw salt time memory threads keyLen,
+  1 <= threads <= 255 -> 0 <= memory < 2 ^ 32 ->
+  SafeArgon2.Key_chk B2 mode version pw salt time memory threads keyLen
+  = Some (Argon2.Key B2 mode version pw salt time memory threads keyLen).
+Proof. exact SafeArgon2.Key_never_out_of_range. Qed.
+
+(* the reference index is a function of the low 64 bits of the pseudo-random word only, and always inside the matrix *)
+Theorem C05_argon2_reference_in_memory : forall rand lanes segments threads n slice lane index,
+  2 <= segments -> lanes = 4 * segments -> 1 <= threads <= 255 -> threads * lanes <= 2 ^ 32 - 1 ->
+  0 <= n -> 0 <= slice < 4 -> 0 <= lane < threads -> 0 <= index < segments ->
+  (n = 0 -> slice = 0 -> 2 <= index) ->
+  0 <= Argon2.indexAlpha rand lanes segments threads n slice lane index < threads * lanes.
+Proof. exact SafeArgon2.index_in_memory_any. Qed.
 
